@@ -667,28 +667,24 @@ var (
 	conc    = h.Prop[ConcCase]{Name: "concurrent", Gen: genConc, Run: runConc}
 )
 
-func TestC10(t *testing.T) {
+func rules() {
 	h.Rule("a case is a history of def (defmethod with qualifier, specializer tuple, around style; identity = op index) / rm (remove-method via find-method) / " +
 		"call / cam (compute-applicable-methods) over one fresh generic function of 1 or 2 required arguments; universes: built-in numeric tower + symbol " +
 		"(arguments 1, 2^70, 1/2, 1.5, 1.5s0, 'a) and a chain of four defclass classes. Random histories of 1-40 ops draw from a pool of 1-3 call tuples and 1-5 " +
 		"specializer tuples (80% taken from the precedence list of a pooled call). Exhaustive enumerations: every history of exactly L ops ending in a call over a " +
-		"reduced alphabet (see notes). Oracle = internal/refdispatch (cache-free dispatcher over the model's method table, own precedence table); after every call the " +
-		"vt:mark trace and the returned value must equal the model's. Non-trivial: the history contains call(c) -> definition/removal that changes the applicable set of c -> " +
-		"call(c) whose outcome is checked (the stale-cache triple). Distinct by history text.")
+		"reduced alphabet (see the notes of the run). Concurrent cases: 2-4 routines calling while one routine runs 1-8 def/rm. Oracle = internal/refdispatch (cache-free " +
+		"dispatcher over the model's method table, own precedence table); after every call the vt:mark trace and the returned value must equal the model's (concurrent: " +
+		"the model's for some table version that existed during the call). Non-trivial: the history contains call(c) -> definition/removal that changes the applicable " +
+		"set of c -> call(c) whose outcome is checked (the stale-cache triple); concurrent: some call overlapped a definition/removal. Distinct by case text.")
 	h.Assume("internal/refdispatch encodes the standard method combination as design/generics.md describes it; class precedence lists are a table in the model, compared with slip's class-precedence and Hierarchy() by sub-property class-precedence-table")
 	h.Assume("vt:mark (harness Go built-in) records the trace; method bodies use only vt:mark, prog1, list, call-next-method, next-method-p")
+}
 
+func TestC10History(t *testing.T) {
+	rules()
 	h.RunProp(t, cpl, 0)
-	h.RunProp(t, exh1, 0)
-	h.RunProp(t, exh2, 0)
 	h.RunProp(t, history, h.N(25000, 400000))
-	h.RunProp(t, conc, h.N(1200, 6000))
-
-	sh, nsh := h.C.Shard, h.C.NShards
-	if !h.Thorough() {
-		sh, nsh = 0, 1
-	}
-	if sh == 0 {
+	if h.C.Shard == 0 {
 		h.Enumerate(t, cpl, func(yield func(CPLCase) bool) {
 			for _, un := range []string{"num", "usr"} {
 				for _, a := range ref.Universes[un].Args {
@@ -698,6 +694,21 @@ func TestC10(t *testing.T) {
 				}
 			}
 		})
+	}
+}
+
+func TestC10Concurrent(t *testing.T) {
+	rules()
+	h.RunProp(t, conc, h.N(1200, 6000))
+}
+
+func TestC10Exhaustive(t *testing.T) {
+	rules()
+	h.RunProp(t, exh1, 0)
+	h.RunProp(t, exh2, 0)
+	sh, nsh := h.C.Shard, h.C.NShards
+	if !h.Thorough() {
+		sh, nsh = 0, 1
 	}
 	a1 := alphabet{n: 1, quals: quals, specs: tuples([]string{"integer", "real"}, 1), calls: tuples([]string{"fix", "dbl"}, 1), len: 5}
 	a2 := alphabet{n: 2, quals: []string{"", "before", "around"}, specs: tuples([]string{"integer", "real"}, 2), calls: tuples([]string{"fix", "dbl"}, 2), len: 4}
